@@ -119,25 +119,34 @@ def run_vdrive(work, name, cases, shards=NCPU, timeout_ms=10000):
 
     def one(pre):
         skip = 0
+        extra = ""
         n = sum(1 for _ in open(pre + ".cases.ndjson"))
+        restarts = 0
         while skip < n:
-            cmd = "ulimit -v 12000000; exec %s run %s.cases.ndjson %s --skip %d --timeout-ms %d" % (
-                vdrive_bin(), pre, pre, skip, timeout_ms)
+            cmd = "ulimit -v 12000000; exec %s run %s.cases.ndjson %s --skip %d --timeout-ms %d %s" % (
+                vdrive_bin(), pre, pre, skip, timeout_ms, extra)
             r = subprocess.run(["bash", "-c", cmd], capture_output=True, text=True)
+            extra = ""
             if r.returncode == 0:
                 return
+            restarts += 1
+            if restarts > 200:
+                raise ToolError("vdrive keeps crashing: " + r.stderr[-300:])
             m = re.search(r"HANG case_index=(\d+)", r.stderr)
             if r.returncode == 3 and m:
                 skip = int(m.group(1)) + 1
                 continue
-            # crash of the harness process itself (abort, OOM): record and go on after
-            # the case that was being processed
-            done = sum(1 for _ in open(pre + ".dumps.ndjson")) + sum(1 for _ in open(pre + ".errs.ndjson"))
-            with open(pre + ".errs.ndjson", "a") as f:
-                f.write(json.dumps({"id": "crash@%d" % done, "class": "crash",
-                                    "msg": "vdrive exit %d: %s" % (r.returncode, r.stderr[-300:]),
-                                    "cfg": {}, "grammar": "", "ci": done}) + "\n")
-            raise ToolError("vdrive crashed (exit %d): %s" % (r.returncode, r.stderr[-500:]))
+            # The process itself died (stack overflow / abort / OOM in the code under
+            # test).  vdrive noted what it was doing; resume there and record a crash.
+            try:
+                ci, ii, phase = open(pre + ".progress").read().split()
+            except Exception:
+                raise ToolError("vdrive crashed (exit %d): %s" % (r.returncode, r.stderr[-500:]))
+            skip = int(ci)
+            if phase == "dump":
+                extra = "--crash dump"
+            else:
+                extra = "--resume-input %s --crash %s" % (ii, phase)
 
     with ThreadPoolExecutor(max_workers=NCPU) as ex:
         list(ex.map(one, prefixes))
